@@ -305,8 +305,8 @@ class SimpleARTMAP(BaseARTMAP):
             j = 0
         else:
             j = len(self.labels_)
-            self.labels_ = np.pad(self.labels_, [(0, X.shape[0])], mode="constant")
-            self.labels_[j:] = y
+            # concatenation keeps every target exact (a wider dtype in a later batch)
+            self.labels_ = np.concatenate([self.labels_, np.asarray(y)])
             self.module_a.labels_ = np.pad(
                 self.module_a.labels_, [(0, X.shape[0])], mode="constant"
             )
